@@ -14,7 +14,7 @@ from vp.synth import DG, NativeParser, PX, iform, class_reg
 from harness._procstub import Env, Clock, installed
 
 # kernel: two rings and a self loop over 4 instructions
-SPEC = [((1,), 0), ((0,), 1), ((2, 0), 2), ((2,), 3)]
+SPEC = [((1,), 0), ((0,), 1), ((2, 0), 2), ((3,), 3)]      # last instruction is a self loop (found only from its own root)
 
 
 def _build():
@@ -37,7 +37,7 @@ def _run(ncores, timeout, incs, sleeps, finish, prefix, term_ignored=False):
     ref, ref_edges = _reference()
     kernel = _build()
     g = DG(kernel, NativeParser(PX))
-    g.INSTRUCTION_THRESHOLD = 1
+    g.INSTRUCTION_THRESHOLD = len(kernel)      # exactly at the threshold: the multi-process branch (with its timeout) applies
     clock = Clock(incs, sleeps)
     env = Env(ncores, clock=clock, finish=finish, prefix=prefix)
     env.term_ignored = term_ignored
@@ -55,6 +55,7 @@ def _run(ncores, timeout, incs, sleeps, finish, prefix, term_ignored=False):
         ok = ok and got == ref                                                    # complete
     ok = ok and not killed_dead                                                   # kill only live workers
     ok = ok and sorted(env.joined) == list(range(len(env.procs)))                 # each joined exactly once
+    ok = ok and len(env.procs) == ncores                                          # the timed, multi-process search was used
     if timeout == -1:
         ok = ok and not env.killed and clock.nsleep == 0
     else:
@@ -106,9 +107,25 @@ def sched3(timeout: int, d0: int, d1: int, d2: int, s0: int, s1: int, f0: int, f
     return verdict(ok, nontrivial=cut, sample=lambda: {"timeout": t, "time_increments": [d0, d1, d2], "sleeps": [s0, s1], "finish": [f0, f1, f2], "prefix": pre})
 
 
+def untimed(ncores: int, generous: bool, f0: int, f1: int) -> bool:
+    """
+    pre: 1 <= ncores <= 6 and 0 <= f0 <= 3 and 0 <= f1 <= 3
+    post: _
+    """
+    # timeout -1, or a generous timeout with all workers finishing early: complete result, no warning,
+    # for every worker count (incl. more workers than instructions and counts not dividing the length)
+    if skip(locals()):
+        return True
+    n = pick(ncores - 1, 6) + 1
+    fin = [f0, f1] + [0] * (n - 2)
+    ok, cut = _run(n, 1000 if generous else -1, [0, 1, 1, 1], [1, 1, 1], fin[:n], [0] * n)
+    return verdict(ok and not cut, nontrivial=True, sample=lambda: {"workers": n, "timeout": 1000 if generous else -1, "finish": fin[:n]})
+
+
 CELLS = {
     "sched2": {"fn": sched2, "bound": "2 workers (2 root instructions each); timeout in {-1,0,1,2}; 4 clock increments 0..2, 3 sleep amounts 1..2, completion instants 0..7, published prefix 0..2 chunks per killed worker: all symbolic; workers may ignore SIGTERM (only SIGKILL is reliable)",
                "budget": {"quick": 170, "thorough": 900}, "shards": 36},
+    "untimed": {"fn": untimed, "bound": "1-6 workers on the 4-instruction kernel, timeout -1 or generous with symbolic early completion instants: complete result, no warning, nobody killed", "budget": {"quick": 150, "thorough": 300}},
     "sched3": {"fn": sched3, "tiers": ("thorough",), "bound": "3 workers; timeout 0..3; increments 0..3, sleeps 1..3, completion instants 0..9, prefix 0/1 chunk", "budget": {"thorough": 1500}, "shards": 32},
 }
 
